@@ -119,6 +119,9 @@ class Module:
             self.tree = ast.parse(self.source, filename=str(path))
         except SyntaxError as e:  # pragma: no cover
             raise AnchorError(f'{self.rel}: does not parse: {e}') from e
+        from .normalize import normalize
+
+        self.normalised = normalize(self.tree)
         self.lines = self.source.splitlines()
         self.functions: dict[str, FuncInfo] = {}
         self.classes: dict[str, ClassInfo] = {}
